@@ -40,11 +40,18 @@ def fills(seed):
 
 # a device change alone is invisible to the inverter until it reads: changes come with the runtime read that notices
 HIST = ['runtime', 'sensor:first', 'dev:battery-off', 'dev:battery-on', 'dev:refuse-mppt', 'dev:accept-mppt',
-        'dev:refuse-battery2', 'dev:refuse-meter-ext2', 'dev:refuse-meter-ext', 'settings:colliding', 'sensor:all']
+        'dev:refuse-battery2', 'dev:refuse-meter-ext2', 'dev:refuse-meter-ext', 'settings:colliding', 'sensor:all',
+        'dev:refuse-battery', 'dev:accept-all', 'devq:refuse-battery', 'devq:accept-all']
+# (devq: = the device changes and NO runtime read follows: the next call of the history is the first to notice)
+HIST_DT = ['runtime', 'sensor:first', 'sensor:all', 'settings:colliding', 'dev:refuse-meter', 'dev:accept-all',
+           'devq:refuse-meter', 'devq:accept-all']
 
 
 def apply(r, cfg, name):
     inv, dev = r.inv, r.dev
+    quiet = name.startswith('devq:')
+    if quiet:
+        name = 'dev:' + name[5:]
     if name == 'runtime':
         r.call(inv.read_runtime_data)
     elif name == 'sensor:first':
@@ -69,9 +76,16 @@ def apply(r, cfg, name):
         dev.refused = dev.refused + ET_OPTIONAL['battery2']
     elif name == 'dev:refuse-meter-ext2':
         dev.refused = dev.refused + ET_OPTIONAL['meter_ext2']
+    elif name == 'dev:refuse-battery':
+        dev.refused = dev.refused + ET_OPTIONAL['battery']
+    elif name == 'dev:refuse-meter':
+        from ..devsim import DT_OPTIONAL
+        dev.refused = dev.refused + DT_OPTIONAL['meter']
+    elif name == 'dev:accept-all':
+        dev.refused = []           # the hardware is there now (battery commissioned, meter connected)
     elif name == 'dev:refuse-meter-ext':
         dev.refused = dev.refused + ET_OPTIONAL['meter_ext'] + ET_OPTIONAL['meter_ext2']
-    if name.startswith('dev:'):
+    if name.startswith('dev:') and not quiet:
         r.call(inv.read_runtime_data)
 
 
@@ -86,13 +100,27 @@ def sweep(cfg, fill, hist, transport='udp'):
     if di[0] != 'ok':
         return [('device-info', str(di), None)], None, 0
     for name in hist:
-        if cfg['family'] == 'ET' or name in ('runtime', 'sensor:first', 'sensor:all', 'settings:colliding'):
+        if cfg['family'] == 'ET' or name in ('runtime', 'sensor:first', 'sensor:all', 'settings:colliding') or \
+                (cfg['family'] == 'DT' and name in HIST_DT):
             apply(r, cfg, name)
-    state = (tuple(sorted((k, v) for k, v in vars(inv).items() if k.startswith('_has'))),
+    from ..explore import obj_state
+    state = (obj_state(inv, r.loop.time()), obj_state(inv._protocol, r.loop.time()) if hasattr(inv, '_protocol') else None,
+             tuple(sorted((k, v) for k, v in vars(inv).items() if k.startswith('_has'))),
              inv._sensors_map is None if hasattr(inv, '_sensors_map') else None,
              tuple(sorted(inv._sensors_map)) if getattr(inv, '_sensors_map', None) else None,
              tuple(dev.refused) if hasattr(dev, 'refused') else None, dev.rf.get(35184) if cfg['family'] == 'ET' else None)
     ids = [s for s in inv.sensors()]
+    if len(hist) >= 2:
+        # deeper histories: one representative per (type, hundred-register range) instead of every id (every id is swept
+        # after the empty and the one-letter histories)
+        seen_k = set()
+        reps = []
+        for s in ids:
+            k = (type(s).__name__, s.offset // 100)
+            if k not in seen_k:
+                seen_k.add(k)
+                reps.append(s)
+        ids = reps
     singles = {}
     for s in ids:
         singles[s.id_] = r.call(inv.read_sensor, s.id_)
@@ -142,12 +170,15 @@ def sweep(cfg, fill, hist, transport='udp'):
 
 
 def job(j):
-    cfg, fname, seed, depth, transport = j
+    cfg, fname, seed, depth, transport = j[:5]
+    root = j[5] if len(j) > 5 else None        # subtree of one first letter (the subtrees are explored in parallel)
     fill = dict(fills(seed))[fname]
     out = {}
     n = nids = 0
     seen = set()
-    frontier = collections.deque([[]])
+    frontier = collections.deque([[root] if root else []])
+    letters = HIST if cfg['family'] == 'ET' else HIST_DT if cfg['family'] == 'DT' else \
+        ['runtime', 'sensor:first', 'sensor:all', 'settings:colliding']
     states = set()
     edges = 0
     while frontier:
@@ -164,13 +195,9 @@ def job(j):
             continue
         seen.add(st)
         states.add(st)
-        if len(hist) >= depth or cfg['family'] != 'ET':
-            if cfg['family'] != 'ET' and not hist:
-                for nm in ('runtime', 'sensor:first', 'sensor:all', 'settings:colliding'):
-                    frontier.append([nm])
-                    edges += 1
-            continue
-        for nm in HIST:
+        if len(hist) >= (depth if cfg['family'] != 'ES' else min(depth, 1)) or (root is None and depth > 1):
+            continue       # (with depth > 1 the root job evaluates the empty history only)
+        for nm in letters:
             frontier.append(hist + [nm])
             edges += 1
     res = []
@@ -199,7 +226,12 @@ def run(tier, seed, rep):
             d = depth if fname == 'seed-context' else 0
             if tier != 'thorough' and fname == 'seed-context' and cfg is cfgs[0]:
                 d = 3
+            if cfg['family'] == 'DT' and fname == 'seed-context' and d < 3 and cfg is [c for c in cfgs if c['family'] == 'DT'][0]:
+                d = 3
             jobs.append((cfg, fname, seed, d, 'udp'))
+            if d > 1:
+                lt = HIST if cfg['family'] == 'ET' else HIST_DT if cfg['family'] == 'DT' else []
+                jobs += [(cfg, fname, seed, d, 'udp', first) for first in lt]
         jobs.append((cfg, 'small-values', seed, 1, 'tcp' if cfg['family'] != 'ES' else 'udp'))
     total = nids = edges = 0
     states = set()
